@@ -122,12 +122,43 @@ class SpecMap:
         self.define()
         return self.fn(xs, *params)
 
+    # -- "some element satisfies the (boolean) body": any(body(v) for v in xs)
+    def any_fn(self):
+        self.define()
+        if not hasattr(self, "_any"):
+            f = z3.RecFunction(self.name + "#any", V.VL, *[p.sort() for p in self.params], z3.BoolSort())
+            l = z3.FreshConst(V.VL, "l")
+            cond = V.truthy(z3.substitute(self.body, (self.var, V.hd(l))))
+            z3.RecAddDefinition(f, [l] + self.params, z3.If(V.is_VNil(l), z3.BoolVal(False), z3.Or(cond, f(V.tl(l), *self.params))))
+            self._any = f
+        return self._any
+
+    def apply_any(self, path, xs, *params):
+        """any(body(v) for v in xs); related by extensionality to the code's `some element raises` flag over the same list"""
+        f = self.any_fn()
+        xs = z3.simplify(xs)
+        psub = list(zip(self.params, params))
+        if path is not None:
+            for cname, m in list(path.maps_used.items()):
+                if m.get("kind") != "any" or not z3.simplify(m["xs"]).eq(xs):
+                    continue
+                v = path.fresh("ext")
+                cflag = V.truthy(z3.substitute(m["body"], (m["var"], v)))
+                sflag = V.truthy(z3.substitute(self.body, (self.var, v), *psub))
+                facts = [V.vl_contains(xs, v)]
+                ent = path.ctx.__dict__.get("elem_shapes", {}).get(xs.get_id())
+                if ent is not None:
+                    facts.append(ent(v))
+                if path.try_prove(z3.Implies(z3.And(*facts), cflag == sflag)):
+                    path.assume(m["fn"](xs) == f(xs, *params))
+        return f(xs, *params)
+
     def apply(self, path, xs, *params):
         self.define()
         xs = z3.simplify(xs)
         psub = list(zip(self.params, params))
         for cname, m in list(path.maps_used.items()):
-            if not z3.simplify(m["xs"]).eq(xs):
+            if m.get("kind") == "any" or not z3.simplify(m["xs"]).eq(xs):
                 continue
             done = path.ctx.__dict__.setdefault("map_ext_done", set())
             key = (cname, self.name, xs.get_id(), id(path), tuple(p.get_id() for p in params))
